@@ -8,11 +8,21 @@ use std::task::{Context, Poll, Wake, Waker};
 use std::thread::Thread;
 
 /// A waker that counts its invocations and (optionally) unparks a thread.
+///
+/// Two representations: the ordinary one (`Waker::from(Arc<WakeCell>)`: every cell has its own data pointer) and a
+/// *family* of cells whose wakers share ONE data pointer and differ only in their vtable (a task control block that
+/// is woken through the vtable of the run queue it currently sits on; `Waker::noop()`-like wakers with a null or
+/// static data pointer). "Is this the same waker?" must look at both words.
 pub struct WakeCell {
     pub id: u32,
     pub count: AtomicUsize,
     pub last: AtomicU64,
     pub thread: Option<Thread>,
+    family: Option<(Arc<WakerFamily>, usize)>,
+}
+pub struct WakerFamily {
+    count: [AtomicUsize; 4],
+    last: [AtomicU64; 4],
 }
 impl Wake for WakeCell {
     fn wake(self: Arc<Self>) {
@@ -28,14 +38,65 @@ impl Wake for WakeCell {
 }
 impl WakeCell {
     pub fn new(id: u32, thread: Option<Thread>) -> Arc<WakeCell> {
-        Arc::new(WakeCell { id, count: AtomicUsize::new(0), last: AtomicU64::new(0), thread })
+        Arc::new(WakeCell { id, count: AtomicUsize::new(0), last: AtomicU64::new(0), thread, family: None })
+    }
+    /// `n` (<= 4) cells whose wakers share their data pointer and differ in the vtable only
+    pub fn family(first_id: u32, n: usize) -> Vec<Arc<WakeCell>> {
+        assert!(n <= 4);
+        let f = Arc::new(WakerFamily { count: Default::default(), last: Default::default() });
+        (0..n).map(|k| Arc::new(WakeCell { id: first_id + k as u32, count: AtomicUsize::new(0), last: AtomicU64::new(0), thread: None, family: Some((f.clone(), k)) })).collect()
     }
     pub fn fired(&self) -> usize {
-        self.count.load(Relaxed)
+        match &self.family {
+            Some((f, k)) => f.count[*k].load(Relaxed),
+            None => self.count.load(Relaxed),
+        }
+    }
+    pub fn last_fired(&self) -> u64 {
+        match &self.family {
+            Some((f, k)) => f.last[*k].load(Relaxed),
+            None => self.last.load(Relaxed),
+        }
+    }
+}
+mod family_vtable {
+    use super::*;
+    use std::task::{RawWaker, RawWakerVTable};
+    // four statics: one address per vtable (`Waker::will_wake` compares the vtable by address)
+    static VTS: [RawWakerVTable; 4] = [
+        RawWakerVTable::new(clone::<0>, wake::<0>, wake_by_ref::<0>, drop_w::<0>),
+        RawWakerVTable::new(clone::<1>, wake::<1>, wake_by_ref::<1>, drop_w::<1>),
+        RawWakerVTable::new(clone::<2>, wake::<2>, wake_by_ref::<2>, drop_w::<2>),
+        RawWakerVTable::new(clone::<3>, wake::<3>, wake_by_ref::<3>, drop_w::<3>),
+    ];
+    unsafe fn clone<const K: usize>(p: *const ()) -> RawWaker {
+        Arc::increment_strong_count(p as *const WakerFamily);
+        RawWaker::new(p, &VTS[K])
+    }
+    unsafe fn wake<const K: usize>(p: *const ()) {
+        wake_by_ref::<K>(p);
+        drop_w::<K>(p);
+    }
+    unsafe fn wake_by_ref<const K: usize>(p: *const ()) {
+        let f = &*(p as *const WakerFamily);
+        f.count[K].fetch_add(1, Relaxed);
+        f.last[K].store(crate::payload::now(), Relaxed);
+    }
+    unsafe fn drop_w<const K: usize>(p: *const ()) {
+        // K keeps the four monomorphizations apart
+        std::hint::black_box(K);
+        Arc::decrement_strong_count(p as *const WakerFamily);
+    }
+    pub fn raw(f: &Arc<WakerFamily>, k: usize) -> RawWaker {
+        let p = Arc::into_raw(f.clone()) as *const ();
+        RawWaker::new(p, &VTS[k.min(3)])
     }
 }
 pub fn waker_of(c: &Arc<WakeCell>) -> Waker {
-    Waker::from(c.clone())
+    match &c.family {
+        Some((f, k)) => unsafe { Waker::from_raw(family_vtable::raw(f, *k)) },
+        None => Waker::from(c.clone()),
+    }
 }
 
 /// Polls `fut` to completion on the current thread, parking (without timeout:
